@@ -41,12 +41,16 @@ func (r *rec) call(name string) error {
 
 type recInit struct{ r *rec }
 
-func (f recInit) SetExternalAgentsRegisterCount(uint16) error { return f.r.call("initSetExternalAgentsRegisterCount") }
-func (f recInit) SetAgentsReadyCount(uint16) error            { return f.r.call("initSetAgentsReadyCount") }
-func (f recInit) ExternalAgentRegistered() error              { return f.r.call("initExternalAgentRegistered") }
-func (f recInit) AwaitExternalAgentsRegistered() error        { return f.r.call("initAwaitExternalAgentsRegistered") }
-func (f recInit) RuntimeReady() error                         { return f.r.call("initRuntimeReady") }
-func (f recInit) AwaitRuntimeReady() error                    { return f.r.call("initAwaitRuntimeReady") }
+func (f recInit) SetExternalAgentsRegisterCount(uint16) error {
+	return f.r.call("initSetExternalAgentsRegisterCount")
+}
+func (f recInit) SetAgentsReadyCount(uint16) error { return f.r.call("initSetAgentsReadyCount") }
+func (f recInit) ExternalAgentRegistered() error   { return f.r.call("initExternalAgentRegistered") }
+func (f recInit) AwaitExternalAgentsRegistered() error {
+	return f.r.call("initAwaitExternalAgentsRegistered")
+}
+func (f recInit) RuntimeReady() error      { return f.r.call("initRuntimeReady") }
+func (f recInit) AwaitRuntimeReady() error { return f.r.call("initAwaitRuntimeReady") }
 func (f recInit) AwaitRuntimeReadyWithDeadline(context.Context) error {
 	return f.r.call("initAwaitRuntimeReadyWithDeadline")
 }
@@ -59,16 +63,16 @@ func (f recInit) Clear()                          { _ = f.r.call("initClear") }
 
 type recInvoke struct{ r *rec }
 
-func (f recInvoke) InitializeBarriers() error              { return f.r.call("invokeInitializeBarriers") }
-func (f recInvoke) AwaitRuntimeResponse() error            { return f.r.call("invokeAwaitRuntimeResponse") }
-func (f recInvoke) AwaitRuntimeReady() error               { return f.r.call("invokeAwaitRuntimeReady") }
-func (f recInvoke) RuntimeResponse(*core.Runtime) error    { return f.r.call("invokeRuntimeResponse") }
-func (f recInvoke) RuntimeReady(*core.Runtime) error       { return f.r.call("invokeRuntimeReady") }
-func (f recInvoke) SetAgentsReadyCount(uint16) error       { return f.r.call("invokeSetAgentsReadyCount") }
-func (f recInvoke) AgentReady() error                      { return f.r.call("invokeAgentReady") }
-func (f recInvoke) AwaitAgentsReady() error                { return f.r.call("invokeAwaitAgentsReady") }
-func (f recInvoke) CancelWithError(error)                  { _ = f.r.call("invokeCancel") }
-func (f recInvoke) Clear()                                 { _ = f.r.call("invokeClear") }
+func (f recInvoke) InitializeBarriers() error           { return f.r.call("invokeInitializeBarriers") }
+func (f recInvoke) AwaitRuntimeResponse() error         { return f.r.call("invokeAwaitRuntimeResponse") }
+func (f recInvoke) AwaitRuntimeReady() error            { return f.r.call("invokeAwaitRuntimeReady") }
+func (f recInvoke) RuntimeResponse(*core.Runtime) error { return f.r.call("invokeRuntimeResponse") }
+func (f recInvoke) RuntimeReady(*core.Runtime) error    { return f.r.call("invokeRuntimeReady") }
+func (f recInvoke) SetAgentsReadyCount(uint16) error    { return f.r.call("invokeSetAgentsReadyCount") }
+func (f recInvoke) AgentReady() error                   { return f.r.call("invokeAgentReady") }
+func (f recInvoke) AwaitAgentsReady() error             { return f.r.call("invokeAwaitAgentsReady") }
+func (f recInvoke) CancelWithError(error)               { _ = f.r.call("invokeCancel") }
+func (f recInvoke) Clear()                              { _ = f.r.call("invokeClear") }
 
 // recThread records SuspendUnsafe and, at that point, lets the harness change the state
 // (what a concurrent platform thread would do while the caller is parked).
